@@ -528,6 +528,7 @@ type FuncContract struct {
 	File     string
 	Line     int
 	NoReturn bool
+	FnParams map[string]string
 }
 
 func (fc *FuncContract) Of(kind string) []*Clause {
@@ -863,6 +864,23 @@ func (db *ContractDB) ParseContractFile(fset *token.FileSet, f *ast.File, pkgPat
 			curLoop = &LoopSpec{Ord: n}
 			cur.Loops[n] = curLoop
 			counts = map[string]int{}
+		case "fnparam":
+			// fnparam name = FunctionKey : calls through this function-typed parameter use that contract
+			if cur == nil {
+				return fail(l.no, "fnparam outside func")
+			}
+			parts := strings.SplitN(rest, "=", 2)
+			if len(parts) != 2 {
+				return fail(l.no, "fnparam wants: name = functionKey")
+			}
+			if cur.FnParams == nil {
+				cur.FnParams = map[string]string{}
+			}
+			key := strings.TrimSpace(parts[1])
+			if !strings.Contains(key, ".") {
+				key = pkgName + "." + key
+			}
+			cur.FnParams[strings.TrimSpace(parts[0])] = key
 		case "noreturn":
 			if cur == nil {
 				return fail(l.no, "noreturn outside func")
